@@ -1,5 +1,5 @@
 (* Properties/C18.v — Permission sets form a consistent algebra.  ONLY statements, each closed by [exact]. *)
-From V Require Import Base.Util Model.Perm Proofs.PermProofs.
+From V Require Import Base.Util Model.Perm Proofs.PermProofs Model.View Proofs.ViewProofs.
 
 (* Serialising and re-reading a permission set never changes which field paths it allows. *)
 Theorem C18_roundtrip : forall a, wf a ->
@@ -32,3 +32,29 @@ Proof.
   split; [|vm_compute; repeat split; reflexivity].
   repeat (constructor; simpl; try tauto; try (intros [H|H]; [discriminate|tauto])).
 Qed.
+
+(* The schema view derived from a permission set agrees with query filtering.
+   FULL STATEMENT (both directions): for every type T and field f of the source schema,
+       view_visible (filter_schema fuel S p) T f = true  <->  Selectable S p T f
+   where Selectable says that some query selecting T.f is left intact by filtering: T is reached from a root along
+   permitted fields (through possible types and through fragments on overlapping types) under a permission node that
+   allows f.  The direction "<-" is FALSE of the faithful model and of the code: see C18_view_complete_refuted below
+   (known finding KF-view-drops-types).  Proved for every schema, permission set and fuel: the direction "->",
+   i.e. the view never shows a field that no intact query can select. *)
+Theorem C18_view_sound_partial : forall S p fuel, std_roots S -> forall T f,
+  view_visible (filter_schema fuel S p) T f = true -> Selectable S p T f.
+Proof. exact view_sound. Qed.
+Print Assumptions C18_view_sound_partial.
+
+(* The converse fails: Fish implements Named, Query.pet : Pet (union of Fish), permissions {"query":{"pet":"*"}}.
+   pet { ... on Fish { ... on Named { name } } } is left intact by filtering, yet Named is not in the view. *)
+Theorem C18_view_complete_refuted :
+  std_roots S_refute /\ Selectable S_refute p_refute "Named" "name" /\
+  view_visible (filter_schema 20 S_refute p_refute) "Named" "name" = false.   (* 20 exceeds the recursion depth on this input *)
+Proof. exact view_complete_refuted. Qed.
+Print Assumptions C18_view_complete_refuted.
+
+(* non-vacuity of C18_view_sound_partial: a proper, non-empty view *)
+Example C18_view_example :
+  std_roots S_refute /\ view_visible (filter_schema 20 S_refute p_refute) "Fish" "name" = true.
+Proof. split; [repeat split; intros n E; inversion E; reflexivity | vm_compute; reflexivity]. Qed.
